@@ -121,6 +121,7 @@ def run(rep, idx, tier):
     rep.require("C04.7", 3)
     rep.require("C04.8", 3)
     rep.require("C04.9", 2)
+    rep.require("C04.10", 1)
     from .c19 import identity_comparisons
     identity_comparisons(rep, idx, rule="C04.9", classes=["Multiplexer"])
     glue.reset_discipline(rep, "C04.9", idx, ["csr/bus:Multiplexer", "csr/bus:Multiplexer._Shadow.Chunk"])
@@ -192,5 +193,7 @@ def run(rep, idx, tier):
     shadow_population(rep, "C04.5", c, r.SH, "readable")
     # C04.7 the address hash that shares chunks between registers is its own inverse on the low bits
     glue.shadow_hash(rep, idx, "C04.7")
+    # C04.10 the shadow is not given up on while a doubling can still separate the registers (a legal layout is not refused)
+    glue.shadow_give_up_bound(rep, idx, "C04.10")
     # C04.8 a chunk is one bus word wide
     glue.chunk_width(rep, "C04.8", idx, c, r.SH)
